@@ -124,13 +124,23 @@ def run(chk, tier):
 def phrase_limit(chk):
     m, info = common.prog("shared")
     F = common.sym(m, "do_crypt")
-    # the strlen of the phrase is compared (>=) with 512 once, and the same value is what the method receives as phr_size
-    lens = [c for c in F.calls("strlen") if c.ops and c.ops[0] == ["v", F.params[0]["id"]]]
+    # the length of the phrase (strlen, or strnlen with a bound of at least 512) is compared (>=) with 512 once, and the same
+    # value is what the method receives as phr_size
+    p0 = ["v", F.params[0]["id"]]
+    lens = [c for c in F.calls("strlen") if c.ops and c.ops[0] == p0]
+    bounded = [c for c in F.calls("strnlen") if c.ops and c.ops[0] == p0]
+    for c in bounded:
+        b = c.ops[1]
+        if b[0] == "c" and int(b[1]) < 512:
+            chk.fail("R-PHRASE-LIMIT", "do_crypt:strnlen", "do_crypt measures the phrase with strnlen(phrase, %d): bytes from offset %d on can never count, although phrases of up to 511 bytes are significant" % (int(b[1]), int(b[1])), "lib/crypt.c:%d" % c.line)
+            return
+    lens = lens or bounded
     if not lens:
-        raise AnalysisBroken("do_crypt no longer takes strlen(phrase)")
+        chk.deferred.append("do_crypt no longer measures the phrase with strlen/strnlen: R-PHRASE-LIMIT cannot be evaluated")
+        return
     c = lens[0]
     cmp_ok = any(U.op == "icmp" and U.d.get("pred") == "uge" and ["c", 512, 64] in U.ops for U in F.users(c.id))
-    passed = any(U.is_call and U.callee is None and len(U.ops) >= 2 and U.ops[1] == ["v", c.id] and U.ops[0] == ["v", F.params[0]["id"]] for U in F.users(c.id))
+    passed = any(U.is_call and U.callee is None and len(U.ops) >= 2 and U.ops[1] == ["v", c.id] and U.ops[0] == p0 for U in F.users(c.id))
     if cmp_ok and passed:
         chk.ok("R-PHRASE-LIMIT", "do_crypt:strlen(phrase) uge 512", sample={"line": c.line})
     else:
